@@ -6,6 +6,21 @@ OPS = "reactivex/operators/"
 
 CONTRACTS = [
     OpContract(
+        name="distinct", props=["C05", "C09"], file=OPS + "_distinct.py", func="distinct_",
+        call="distinct_(key_mapper, comparer)(source)", params={"key_mapper": "opt:callback", "comparer": "opt:callback"},
+        spec="specs.c05:distinct",
+        cells={"hashset.set": "seq"},
+        # the lookup list IS the list of the keys of the elements that passed
+        inv="same(hashset.set, s.seen)",
+        loops={
+            # the scan of the stored keys: what it will answer for the whole list is what it will answer for the part not visited yet
+            ("array_index_of_comparer", 0): dict(
+                inv="match_code(array, item, comparer) == match_code(rest_, item, comparer) and "
+                    "same(match_exc(array, item, comparer), match_exc(rest_, item, comparer))"),
+        },
+        witness="ops.distinct(key_mapper, comparer)",
+    ),
+    OpContract(
         name="take", props=["C05", "C14"], file=OPS + "_take.py", func="take_",
         call="take_(count)(source)", params={"count": "int"},
         raises=[("count < 0", "ArgumentOutOfRangeException")],
